@@ -228,7 +228,11 @@ def canon_agg(agg):
   if agg is None:
     return None
   out = {}
-  for k, v in dict(agg).items():
+  try:
+    items = dict(agg).items()
+  except Exception:  # pylint: disable=broad-except
+    return {'__unreadable__': type(agg).__name__}      # e.g. tree.NullMap: the result of an empty merge
+  for k, v in items:
     out[str(k)] = [list(x) if isinstance(x, tuple) else x for x in v] if isinstance(v, (list, tuple)) else v
   return out
 
